@@ -222,6 +222,7 @@ def argv_of(cfg, path_a, path_b):
         argv.append('--no-color')
     if cfg['j']:
         argv.append('-j')
+    argv += cfg.get('opt', '').split()
     return argv + [path_a, path_b]
 
 
@@ -388,7 +389,11 @@ def impl_run(item):
 HEADER = ('From Coq Require Import String List Bool ZArith.\nRequire Import GT.PyBase GT.DispatchSpec.\n'
           'Import ListNotations.\nOpen Scope string_scope.\n')
 MODEL_HEADER = 'Require Import GT.DispatchModel GTgen.DispatchGen.\n'
-THEOREMS = ['C13_cover', 'C13_dispatch_total', 'C13_partial', 'C13_edits_mode', 'C13_refuted']
+THEOREMS = ['C13_cover', 'C13_dispatch_total', 'C13_no_loop', 'C13_partial', 'C13_edits_mode', 'C13_refuted']
+# dictionary-strategy / list-edit flags (one per run): how main() builds the trees and which edits exist
+OPTS = ['', '-k', '-ds match', '-ds none', '-l', '-ll']
+DS_CTOR = {'-k': 'DSNone', '-ds none': 'DSNone', '-ds match': 'DSMatch'}
+LF_CTOR = {'-l': 'LNoListEdits', '-ll': 'LSameLength'}
 KF_CLASSES = ['kf_reparent', 'kf_plist_null', 'kf_yaml_bytes', 'kf_bytes_diff']
 KF_TERMS = {'kf_bytes_diff': 'kf_bytes_diff'}     # predicates that do not consult the tables
 MODE_CTOR = {'diff': 'MDiff', 'e': 'MEdits', 'd': 'MDigest'}
@@ -427,7 +432,8 @@ def case_term(c, r):
         out = f'(Raised {cstr(r["exc"]["cls"])} {cstr(r["exc"]["msg"][:1500])} {gb(r["exc"].get("in_render", False))})'
     pairs = clist(r['pairs'], lambda p: f'({cstr(p[0])}, {cstr(p[1])})')
     return (f'(Build_c13_case {cstr(c["it"])} {cstr(c["of"])} {MODE_CTOR[c["mode"]]} {STYLE_CTOR[c["style"]]} '
-            f'{gb(c["j"])} {gb(c["diff"])} {clist(r["roots"])} {pairs} {clist(r.get("kinds", []))} '
+            f'{gb(c["j"])} {gb(c["diff"])} {DS_CTOR.get(c.get("opt", ""), "DSAuto")} {LF_CTOR.get(c.get("opt", ""), "LDefault")} '
+            f'{clist(r["roots"])} {pairs} {clist(r.get("kinds", []))} '
             f'{clist(r["events"], event_term)} {out})')
 
 
@@ -435,40 +441,49 @@ def case_term(c, r):
 
 def product(tier, seed):
     """The configuration product on the fixed documents.
-    quick: (a) the first ordinary document of each type, every (input, format, mode, equal/different) with 2 of its 6
-    (style, -j) variants; (b) every extreme document ('x-...') of each type under every format: full diff (equal or
-    different, rotating), -d on the different pair, and -e on one extreme document per (input, format), styles
-    rotating - so every (input type, output format) pair meets every extreme scalar class.
-    thorough: everything on every document."""
+    quick: (a) the first ordinary document of each type: for every (input, format, mode) the different pair with no
+    flag, -k, -ds match and one of {-l, -ll, -ds none} (rotating), the equal pair with no flag and one of {-k, -ds match}
+    (rotating), each with a random (style, -j) variant; (b) every extreme document ('x-...') of each type under every
+    format: full diff (equal or different, rotating), -d on the different pair, and -e on one extreme document per
+    (input, format), styles rotating - so every (input type, output format) pair meets every extreme scalar class.
+    thorough: every (mode, style, -j, equal/different) on every document; every flag on the first document of each
+    type, one rotating flag on the others."""
     docs = documents()
     rng = random.Random(seed)
 
-    def item(it, of, mode, style, j, diff, dn, a, b):
-        return {'it': it, 'of': of, 'mode': mode, 'style': style, 'j': j, 'diff': diff, 'doc': dn,
+    def item(it, of, mode, style, j, diff, dn, a, b, opt=''):
+        return {'it': it, 'of': of, 'mode': mode, 'style': style, 'j': j, 'diff': diff, 'doc': dn, 'opt': opt,
                 'a': a.hex(), 'b': (b if diff else a).hex()}
     items = []
+    n = 0
     for it in TYPES:
         ordinary = [d for d in docs[it] if not d[0].startswith('x-')]
         extreme = [d for d in docs[it] if d[0].startswith('x-')]
-        sets = ordinary[:1] if tier == 'quick' else docs[it]
-        for dn, a, b in sets:
-            for of in TYPES:
-                for mode in MODES:
-                    for diff in (False, True):
-                        variants = [(st, j) for st in STYLES for j in (False, True)]
-                        if tier == 'quick':
-                            rng.shuffle(variants)
-                            variants = variants[:2]
-                        for st, j in variants:
-                            items.append(item(it, of, mode, st, j, diff, dn, a, b))
         if tier == 'quick':
+            dn, a, b = ordinary[0]
             for oi, of in enumerate(TYPES):
-                for di, (dn, a, b) in enumerate(extreme):
+                for mi, mode in enumerate(MODES):
+                    k = seed + oi + mi
+                    plan = [(True, ''), (True, '-k'), (True, '-ds match'), (True, ['-l', '-ll', '-ds none'][k % 3]),
+                            (False, ''), (False, ['-k', '-ds match'][k % 2])]
+                    for diff, opt in plan:
+                        items.append(item(it, of, mode, rng.choice(STYLES), rng.random() < 0.5, diff, dn, a, b, opt))
+                for di, (dn2, a2, b2) in enumerate(extreme):
                     st, j = rng.choice(STYLES), rng.random() < 0.5
-                    items.append(item(it, of, 'diff', st, j, (seed + oi + di) % 2 == 0, dn, a, b))
-                    items.append(item(it, of, 'd', rng.choice(STYLES), rng.random() < 0.5, True, dn, a, b))
+                    items.append(item(it, of, 'diff', st, j, (seed + oi + di) % 2 == 0, dn2, a2, b2))
+                    items.append(item(it, of, 'd', rng.choice(STYLES), rng.random() < 0.5, True, dn2, a2, b2))
                     if di == (seed + oi) % len(extreme):
-                        items.append(item(it, of, 'e', rng.choice(STYLES), rng.random() < 0.5, True, dn, a, b))
+                        items.append(item(it, of, 'e', rng.choice(STYLES), rng.random() < 0.5, True, dn2, a2, b2))
+        else:
+            for di, (dn, a, b) in enumerate(docs[it]):
+                for of in TYPES:
+                    for mode in MODES:
+                        for diff in (False, True):
+                            for st in STYLES:
+                                for j in (False, True):
+                                    n += 1
+                                    for opt in (OPTS if di == 0 else [OPTS[(seed + n) % len(OPTS)]]):
+                                        items.append(item(it, of, mode, st, j, diff, dn, a, b, opt))
     rng.shuffle(items)     # spread slow and failing runs over the workers
     return items
 
@@ -495,7 +510,7 @@ def evaluate(wd, keep, st, tag):
     import threading
     groups = {}
     for i, (c, r) in enumerate(keep):
-        groups.setdefault((c['it'], c['of'], c['mode']), []).append(i)
+        groups.setdefault((c['it'], c['of'], c['mode'], DS_CTOR.get(c.get('opt', ''), 'DSAuto') == 'DSNone'), []).append(i)
     evals = ['holds']
     if st['models_ok']:
         evals += ['corr'] + KF_CLASSES
@@ -503,14 +518,15 @@ def evaluate(wd, keep, st, tag):
     errors = []
     lock = threading.Lock()
     files = []
-    for gi, ((it, of, mode), idx) in enumerate(sorted(groups.items())):
+    for gi, ((it, of, mode, dsnone), idx) in enumerate(sorted(groups.items())):
         for ci in range(0, len(idx), 150):
             chunk = idx[ci:ci + 150]
             body = [HEADER]
             if st['models_ok']:
                 body.append(MODEL_HEADER)
-                body.append(f'Definition S := Eval vm_compute in (reach tables (grammar tables {cstr(it)}) '
-                            f'(root_class tables {cstr(of)}) {MODE_CTOR[mode]}).')
+                # (DSAuto and DSMatch give the same grammar: mappings are DictNode)
+                body.append(f'Definition S := Eval vm_compute in (reach tables (grammar_o tables {cstr(it)} '
+                            f'{"DSNone" if dsnone else "DSAuto"}) (root_class tables {cstr(of)}) {MODE_CTOR[mode]}).')
             body.append('Definition cases := [')
             body.append(';\n'.join(f'({i}%nat, {case_term(*keep[i])})' for i in chunk))
             body.append('].')
@@ -561,7 +577,7 @@ def open_findings():
 def replay_obj(c, r, kind):
     docs = {'a': bytes.fromhex(c['a']).decode('utf-8', 'replace'), 'b': bytes.fromhex(c['b']).decode('utf-8', 'replace')}
     return {'kind': kind, 'argv': argv_of(c, f'a.{EXT[c["it"]]}', f'b.{EXT[c["it"]]}')[1:], 'files': docs,
-            'case': {k: c[k] for k in ('it', 'of', 'mode', 'style', 'j', 'diff', 'a', 'b')},
+            'case': dict({k: c[k] for k in ('it', 'of', 'mode', 'style', 'j', 'diff', 'a', 'b')}, opt=c.get('opt', '')),
             'observed': None if r is None else {'status': r.get('status'), 'exc': r.get('exc'),
                                                 'events': r.get('events', [])[-6:]},
             'replay': './check C13 --replay <this file>'}
@@ -576,7 +592,8 @@ def run_product(run, wd, cases, st, kfs, tag, printed, stats):
             run.violation(dict(replay_obj(c, None, 'internal-error'), result=r))
             continue
         keep.append((c, r['ok']))
-        run.count([c['it'], c['of'], c['mode'], c['style'], c['j'], c['diff'], c['a']], nontrivial=c['mode'] != 'e' or c['diff'])
+        run.count([c['it'], c['of'], c['mode'], c['style'], c['j'], c['diff'], c.get('opt', ''), c['a']],
+                  nontrivial=c['mode'] != 'e' or c['diff'])
     ev, err = evaluate(wd, keep, st, tag)
     if err:
         run.violation({'kind': 'case-evaluation-failed', 'error': err}, no_input=True)
@@ -634,9 +651,12 @@ def check(tier, seed):
         for fid, (f, k) in sorted(printed.items()):
             run.known(f'id={fid} class={f["class"]} runs={k} {f["what"]}')
         run.cov['rule'] = ('8 input types x 8 --format x {diff,-e,-d} x {--no-color,--color,--html} x {-j,none} x {equal,different '
-                           'documents} through graphtage.__main__.main() on fixed documents per type (quick: first document of each '
-                           'type, 2 of the 6 (style, -j) variants of every (input, format, mode, equal/different) = 768 runs; thorough: 5 documents = 11520 runs) + corpus; per run: completion vs the model, every '
-                           'dispatch event resolved as the model resolves it, inside the reachable set, tree classes inside the grammar')
+                           'documents} x {no flag,-k,-ds match,-ds none,-l,-ll} through graphtage.__main__.main() on fixed documents '
+                           'per type incl. extreme-scalar documents (quick: see product(): every (input, format, mode) meets -k, '
+                           '-ds match and one of -l/-ll/-ds none, every (input, format) meets every extreme document; thorough: the '
+                           'whole product on every document, every flag on the first document) + corpus; per run: completion vs the '
+                           'model, every dispatch event resolved as the model resolves it, inside the reachable set of the run\'s '
+                           'grammar (input type x dictionary strategy), tree classes and scalar classes inside that grammar')
         run.cov['failing_runs_by_config'] = stats['failing']
         run.cov['runs'] = stats['runs']
         run.cov['dispatch_events_compared'] = stats['events']
